@@ -125,7 +125,11 @@ func (w *C16) Run(t *rt.Tape, trace bool, seed uint64) *core.Result {
 	// transport: not byte-wise (each trial is a complete session), no latency
 	dir := simnet.DirConfig{Cap: []int{65536, 4096, -1, 0}[t.Choose(rt.SGen, 4)], Frag: []int{simnet.FragWhole, simnet.FragRandom}[t.Choose(rt.SGen, 2)]}
 	pipe := simnet.PipeConfig{AB: dir, BA: dir, Record: true}
-	circ := gen.Circuit(t, gen.CircuitOpts{MaxGates: 40, MaxIn: 12, MaxOutW: 8})
+	co := gen.CircuitOpts{MaxGates: 40, MaxIn: 12, MaxOutW: 8}
+	if w.Tier == "thorough" {
+		co = gen.CircuitOpts{MaxGates: 150, MaxIn: 24, MaxOutW: 12}
+	}
+	circ := gen.Circuit(t, co)
 	in := gen.Inputs(t, circ)
 	kind := []int{OTCO, OTCO, OTCO, OTCOT, OTCOTMal, OTRSA1024, OTCO, OTCOT}[t.Choose(rt.SGen, 8)]
 	want := gen.Eval(circ, in)
